@@ -630,11 +630,15 @@ func (self *Node) removeMetadata() {
 }
 
 func (self *Node) getFork(index string) *Fork {
-	i, err := strconv.Atoi(index)
-	if err == nil && i >= 0 && i < len(self.forks) {
-		return self.forks[i]
-	}
 	l := len(self.call.GetFqid()) + 5
+	if i, err := strconv.Atoi(index); err == nil && i >= 0 && i < len(self.forks) {
+		// Fast path.  The position of a fork in the list is usually, but not
+		// always, its numeric ID: forks added by dynamic expansion of an outer
+		// map call are appended after the statically-known inner forks.
+		if f := self.forks[i]; len(f.fqname) > l && f.fqname[l:] == index {
+			return f
+		}
+	}
 	for _, f := range self.forks {
 		if len(f.fqname) > l && f.fqname[l:] == index {
 			return f
